@@ -132,7 +132,10 @@ fn case<G: CurveTag>(bytes: &[u8], col: &mut Collector, large: bool) -> Result<(
     } else {
         GenCfg { max_ops1: 12, max_closures: 3, max_ops2: 8, max_commits: 4, big_gates: 0, max_terms: 4, wide: false }
     };
-    let (mut prog, label) = if bad {
+    let forced = FORCED.with(|f| f.borrow_mut().take());
+    let (mut prog, label) = if let Some(fp) = forced {
+        (fp, "honest (fixed large statement)".to_string())
+    } else if bad {
         let (p, l) = gen_bad(&bytes[cut..], G::CURVE, &cfg);
         (p, format!("bad witness ({})", l))
     } else {
@@ -141,6 +144,10 @@ fn case<G: CurveTag>(bytes: &[u8], col: &mut Collector, large: bool) -> Result<(
     };
     prog.cap_v = Cap::Big;
     let shape = prog.shape();
+    if shape.padded() > 256 {
+        prog.cap_v = Cap::Exact;
+        prog.cap_p = Cap::Exact;
+    }
     let p = run_prover::<G>(&prog, &ProveOpts { record: true, ..Default::default() });
     let Some(proof) = p.proof.as_ref() else {
         col.note("prover failed (left to C01)");
@@ -263,7 +270,41 @@ fn dispatch(sub: &str, bytes: &[u8], col: &mut Collector) -> Result<(), Failure>
     with_curve!(curve, G => case::<G>(bytes, col, large))
 }
 
+thread_local! {
+    /// a fixed statement that the next `case` call on this thread checks instead of a generated one
+    static FORCED: std::cell::RefCell<Option<crate::program::Program>> = std::cell::RefCell::new(None);
+}
+
+/// a statement with `n1` + `n2` gates (beyond what the generator reaches: 16 inner-product rounds)
+fn scale_case<G: CurveTag>(n1: usize, n2: usize, col: &mut Collector) -> Result<(), Failure> {
+    use crate::program::{Op, Program, Sc, Var};
+    use crate::scalars::ScalarSpec;
+    let mut ops = vec![Op::Commit { v: ScalarSpec::Small(3), blind: ScalarSpec::Rand(8) }, Op::TData { label: 0, bytes: vec![1, 2, 3] }];
+    for i in 0..n1 {
+        ops.push(Op::AllocMul { l: Sc::C(ScalarSpec::Small(1 + i as u64)), r: Sc::C(ScalarSpec::Small(3)) });
+    }
+    ops.push(Op::Constrain { lc: vec![(Var::Com(0), Sc::C(ScalarSpec::One))], err: None, base: None });
+    if n2 > 0 {
+        let mut body = vec![Op::Challenge { label: 0 }];
+        for i in 0..n2 {
+            body.push(Op::AllocMul { l: Sc::MulReg(ScalarSpec::Small(1 + i as u64), 0), r: Sc::C(ScalarSpec::Small(2)) });
+        }
+        ops.push(Op::Closure(body));
+    }
+    let prog = Program { curve: G::CURVE, tlabel: 0, pre: vec![], ops, owned: false, cap_p: Cap::Exact, cap_v: Cap::Exact, party_cap: 1, seed: 6, pc: 0, gens: 0 };
+    FORCED.with(|f| *f.borrow_mut() = Some(prog));
+    let bytes = [0x55u8; 64];
+    let r = case::<G>(&bytes, col, true);
+    FORCED.with(|f| *f.borrow_mut() = None);
+    col.class("scale");
+    r
+}
+
 pub fn replay(sub: &str, bytes: &[u8], col: &mut Collector) -> Result<(), Failure> {
+    if sub == "c06/scale" && bytes.len() == 5 {
+        let u = |i: usize| (bytes[i] as usize) << 8 | bytes[i + 1] as usize;
+        return with_curve!(Curve::ALL[bytes[0] as usize % 3], G => scale_case::<G>(u(1), u(3), col));
+    }
     dispatch(sub, bytes, col)
 }
 
@@ -285,6 +326,17 @@ pub fn run(tier: &str, seed: u64) -> i32 {
         let subl = format!("c06/{}/large", c.name());
         let nl = super::scale(tier, 16, 200);
         rep.outcome.merge(search(&subl, seed, nl, 900, &|b, col| dispatch(&subl, b, col)));
+    }
+    // statements at scale: 12 rounds in the quick tier, 16 rounds (65 536 padded gates) in the thorough tier
+    if rep.outcome.found.is_empty() {
+        let items: Vec<(Curve, usize, usize)> = if tier == "thorough" {
+            vec![(Curve::ALL[(seed % 3) as usize], 32_800, 0), (Curve::ALL[((seed + 1) % 3) as usize], 3000, 1200), (Curve::ALL[((seed + 2) % 3) as usize], 4097, 0)]
+        } else {
+            vec![(Curve::ALL[((seed + 1) % 3) as usize], 2500, 0)]
+        };
+        let mut o = crate::runner::enumerate("c06/scale", &items, &|(c, a, b)| vec![c.index() as u8, (*a >> 8) as u8, *a as u8, (*b >> 8) as u8, *b as u8], &|(c, a, b), col| with_curve!(*c, G => scale_case::<G>(*a, *b, col)));
+        o.exhaustive = false;
+        rep.outcome.merge(o);
     }
     for (c, f) in [("two-phase", 0.2), ("closure-challenges", 0.1), ("user-data", 0.1), ("bad-witness", 0.1), ("k=2", 0.05), ("owned-transcript", 0.1), ("returned-transcripts-compared", 0.3), ("clone-derived-weight-checked", 0.5), ("altered-proof-run", 0.5)] {
         rep.required_classes.push((c.to_string(), f));
